@@ -267,6 +267,18 @@ func cmdVerify(argv []string) {
 				if usesTags {
 					asserts = append(asserts, ex.tagFacts...)
 				}
+				for _, gf := range ex.globFacts {
+					used := mentionsConst(o.Goal, gf.name)
+					for _, a := range asserts {
+						if used {
+							break
+						}
+						used = mentionsConst(a, gf.name)
+					}
+					if used {
+						asserts = append(asserts, gf.fact)
+					}
+				}
 				asserts = append(asserts, Not(o.Goal))
 				var gv []*Term
 				if o.Kind != "vacuity" {
@@ -545,6 +557,30 @@ func mentionsUF(t *Term, name string) bool {
 	if !r {
 		for _, a := range t.Args {
 			if mentionsUF(a, name) {
+				r = true
+				break
+			}
+		}
+	}
+	m[t.id] = r
+	return r
+}
+
+var constMemo = map[string]map[int]bool{}
+
+func mentionsConst(t *Term, name string) bool {
+	m := constMemo[name]
+	if m == nil {
+		m = map[int]bool{}
+		constMemo[name] = m
+	}
+	if v, ok := m[t.id]; ok {
+		return v
+	}
+	r := t.Op == "const" && t.Name == name
+	if !r {
+		for _, a := range t.Args {
+			if mentionsConst(a, name) {
 				r = true
 				break
 			}
